@@ -202,6 +202,9 @@ def _h_funcs():
     return {'f': lambda a: a * 2, 'sin': np.sin}
 
 
+KEPT = {'vars': dict(H_VARS), 'funcs': {'f': lambda a: a * 2}, 'suff': dict(H_SUFF)}
+
+
 def _two_args(a, b):
     return a + b
 
@@ -236,6 +239,16 @@ def do_event(op, s):
         if op == 'i':    # evaluation that tolerates infinities
             v, m = evaluator(s, dict(H_VARS), _h_funcs(), dict(H_SUFF), max_array_dim=2, allow_inf=True)
             return ('ok', repr(v), sorted(m.variables_used), sorted(m.functions_used), sorted(m.suffixes_used))
+        if op in ('d', 'D'):
+            # the library's DEFAULT tables (no scope supplied), without / with allow_inf
+            v, m = evaluator(s, allow_inf=(op == 'D'))
+            return ('ok', repr(v), sorted(m.variables_used), sorted(m.functions_used), sorted(m.suffixes_used))
+        if op in ('k', 'K'):
+            # a scope the caller KEEPS across calls (one dictionary object per process), without / with allow_inf;
+            # the names it holds afterwards are part of the outcome
+            v, m = evaluator(s, KEPT['vars'], KEPT['funcs'], KEPT['suff'], max_array_dim=2, allow_inf=(op == 'K'))
+            return ('ok', repr(v), sorted(m.variables_used), sorted(m.functions_used), sorted(m.suffixes_used),
+                    sorted(KEPT['vars']), sorted(KEPT['funcs']), sorted(KEPT['suff']))
         if op == 'g':
             set_seed(1)
             g = FormulaGrader(answers='x+y', variables=['x', 'y', 'z'], user_functions={'f': lambda a: a * 2},
@@ -341,7 +354,16 @@ SCOPE_EVENTS = [(op, s) for op in 'evm' for s in ['[x,y]', 'x+y', '[x,y]*2', '2k
     [('w', s) for s in ['f(x)', 'f(x,y)', 'x+y']] + [('e', 'f(x,y)')]
 
 
+# default tables and a kept scope, with and without allow_inf (a seeded change made allow_inf define 'infty' IN the scope
+# it was handed - the process-wide default table, or the caller's own dictionary)
+DEFAULT_EVENTS = [(op, s) for op in 'dDkK' for s in ['3*infty', '1e308*10', 'pi+e', 'infty', 'x+y']]
+
+
 def items_history_inf(tier):
+    for L in (1, 2, 3):
+        for seq in itertools.product(range(len(DEFAULT_EVENTS)), repeat=L):
+            if L < 3 or len({DEFAULT_EVENTS[i][1] for i in seq}) <= 2:
+                yield {'seq4': list(seq)}
     for L in (1, 2, 3):
         for seq in itertools.product(range(len(SCOPE_EVENTS)), repeat=L):
             if L < 3 or len({SCOPE_EVENTS[i][1] for i in seq}) <= 2:
@@ -358,6 +380,9 @@ def judge_history_inf(spec, rec):
     if 'seq3' in spec:
         rec.cls('history/across-scopes')
         return judge_sequence([SCOPE_EVENTS[i] for i in spec['seq3']], rec, 'history')
+    if 'seq4' in spec:
+        rec.cls('history/default-tables-and-kept-scope')
+        return judge_sequence([DEFAULT_EVENTS[i] for i in spec['seq4']], rec, 'history')
     if 'seq2' in spec:
         return judge_sequence([INF_EVENTS2[i] for i in spec['seq2']], rec, 'history')
     return judge_sequence([INF_EVENTS[i] for i in spec['seq']], rec, 'history')
